@@ -65,10 +65,14 @@ func drawPkg(rt *rapid.T, jsonOnly, allowPb, withDeref bool) pkgSpec {
 		n = 1
 		forcePlainWide = true
 	}
+	if !forcePlainWide && rapid.IntRange(0, 7).Draw(rt, "userPackageNamedAs") == 0 {
+		userAsPackage = true
+	}
 	for i := 0; i < n; i++ {
 		p.structs = append(p.structs, drawStruct(rt, i+1, ExcludeFragile, jsonOnly))
 	}
 	forcePlainWide = false
+	userAsPackage = false
 	if !jsonOnly && withDeref && rapid.IntRange(0, 2).Draw(rt, "derefs") == 0 {
 		nd := rapid.IntRange(1, 2).Draw(rt, "nderefs")
 		for i := 0; i < nd; i++ {
@@ -92,6 +96,11 @@ func runPackage(p pkgSpec) (fails []outcome, stage string) {
 	defer m.Remove()
 	if err := m.WriteFile("pa/types.go", p.sourceFixed()); err != nil {
 		return []outcome{{"infra", err.Error()}}, "infra"
+	}
+	if p.usesUserAs() {
+		if err := m.WriteFile("as/as.go", UserAsSource); err != nil {
+			return []outcome{{"infra", err.Error()}}, "infra"
+		}
 	}
 	if pb := p.pbSource(); pb != "" {
 		// hand-written package holding base types of @fp.Deref types; gombok is not run on it
@@ -242,7 +251,7 @@ func clip(s string, n int) string {
 	return s
 }
 
-const ruleC07 = "package spec drawn from a grammar: 1-4 structs under @fp.Value (+ optional @fp.Json [one of MarshalJSON/UnmarshalJSON hand-written in a quarter of them]/@fp.JsonTag/@fp.GenLabelled, doc comment on the type or inside a type group) or the explicit family @fp.Getter/@fp.With/@fp.Builder/@fp.String[(useShow=true) with a hand-written Show instance]/@fp.AllArgsConstructor, plus @fp.RequiredArgsConstructor, @fp.GetterPubField, @fp.WithPubField, fp:\"String.Exclude\" field tags; in a third of the packages 1-2 @fp.Deref types `type D Base...` over a struct type with 0-2 type parameters and drawn methods (value/pointer receivers, with/without results), written as identifier, qualified identifier (second package pb) or instantiation, members declared by hand; 1-25 fields (private / Public / _underscore / embedded empty and non-empty; ordinary names incl. the short ones the generator uses itself: r v t m ok b err s w i), types: basic, named (time.Time, local), pointer, slice, array, map, func, chan, interfaces (any, error, named, inline), fp.Option/Seq/Map/Try/Tuple2/Either, type parameters with any/comparable/fmt.Stringer/inline constraints, struct tags, hand-written members; 2-3 literal values per struct. Pipeline: gombok from the tree under test -> go build -> reflective law test inside the package. Non-trivial iff a struct mixes >= 3 field kinds or has a type parameter; distinct by rendered spec"
+const ruleC07 = "package spec drawn from a grammar: 1-4 structs under @fp.Value (+ optional @fp.Json [one of MarshalJSON/UnmarshalJSON hand-written in a quarter of them]/@fp.JsonTag/@fp.GenLabelled, doc comment on the type or inside a type group) or the explicit family @fp.Getter/@fp.With/@fp.Builder/@fp.String[(useShow=true) with a hand-written Show instance]/@fp.AllArgsConstructor, plus @fp.RequiredArgsConstructor, @fp.GetterPubField, @fp.WithPubField, fp:\"String.Exclude\" field tags; in a third of the packages 1-2 @fp.Deref types `type D Base...` over a struct type with 0-2 type parameters and drawn methods (value/pointer receivers, with/without results), written as identifier, qualified identifier (second package pb) or instantiation, members declared by hand; 1-25 fields (private / Public / _underscore / embedded empty and non-empty; ordinary names incl. the short ones the generator uses itself: r v t m ok b err s w i), types: basic, named (time.Time, local, aliases, in 1 package of 8 a type of a user package that is itself called `as` like gombok's helper package), pointer, slice, array, map, func, chan, interfaces (any, error, named, inline), fp.Option/Seq/Map/Try/Tuple2/Either, type parameters with any/comparable/fmt.Stringer/inline constraints, struct tags, hand-written members; 2-3 literal values per struct. Pipeline: gombok from the tree under test -> go build -> reflective law test inside the package. Non-trivial iff a struct mixes >= 3 field kinds or has a type parameter; distinct by rendered spec"
 
 // PkgCheck registers one sub-check running generated packages through gombok.
 // prop "C07": all laws except the JSON clauses; prop "C15": only the JSON clauses.
@@ -346,6 +355,11 @@ func PkgCheck(t *testing.T, name string, jsonOnly bool, prop string, casesPerPro
 			}
 			if s.handJson != "" {
 				rec.Label("hand:json-" + s.handJson)
+			}
+			for _, f := range s.fields {
+				if strings.Contains(f.t.expr, "as.Level") {
+					rec.Label("user-package-named-as")
+				}
 			}
 		}
 		for _, d := range p.derefs {
